@@ -450,7 +450,7 @@ Proof.
   unfold classify. destruct (covered evs p t); split; reflexivity.
 Qed.
 
-(* --- the code before commit 7f68b0d ---------------------------------------------------------- *)
+(* --- the code before commit 6a06465 ---------------------------------------------------------- *)
 Lemma permanent_refuted_v0 :
   exists pre post p t0 t, query_answer_v0 wiring_now (pre ++ Block p 0 t0 :: post) p t = false.
 Proof.
